@@ -27,7 +27,11 @@ Inductive core :=
 | KEnvWrap (pre post : str) (body : list core)
                                             (* center: its body between two fixed strings (template "pre%spost") *)
 | KAccent (comb : N) (arg : core).          (* accent macro \'{e} \hat{a} \c c : every character of the (stripped)
-                                               argument text composed with the combining mark [comb] *)
+                                               argument text composed with the combining mark [comb].  [arg] is the
+                                               argument node: for a braced argument a [KGroup body], whose braces are
+                                               argument delimiters -- it contributes the rendering of [body], never
+                                               braces (whatever keep_braced_groups says); a single-token argument
+                                               contributes its own rendering *)
 
 (** * The rules *)
 
@@ -82,8 +86,13 @@ Section Render.
         end
     | KEnvBody body => seq sl None body       (* list-like and unknown environments render their body *)
     | KEnvWrap pre post body => pre ++ seq sl None body ++ post
-    | KAccent comb arg =>                     (* accents: each character of the argument gets the mark *)
-        flat_map (fun ch => accent ch comb) (py_strip (render1 sl arg))
+    | KAccent comb arg =>                     (* accents: each character of the argument's contents gets the mark;
+                                                 the braces of a braced argument are never part of the contents *)
+        let c := match arg with
+                 | KGroup body => seq sl None body
+                 | _ => render1 sl arg
+                 end in
+        flat_map (fun ch => accent ch comb) (py_strip c)
     end.
 
   (** a sequence of items after the item [prev] *)
